@@ -279,7 +279,7 @@ pub fn hash_trace(trace: &[Ev]) -> u64 {
 pub fn run_plan(plan: &Plan, keep_trace: bool) -> RunOutput {
     let plan = plan.clone();
     let handle = std::thread::Builder::new()
-        .stack_size(16 << 20)
+        .stack_size(4 << 20)
         .spawn(move || run_on_this_thread(&plan, keep_trace))
         .expect("spawn run thread");
     match handle.join() {
